@@ -352,6 +352,25 @@ fn sd_de_map__n3() {
     sd_de_map(3)
 }
 
+fn sd_de_set_in_place_empty(dsh: Shape) {
+    let rec = any_record(0, false);
+    let q: u8 = kani::any();
+    let mut dst = Z::verif_from_map({
+        let m = build::<u8, ()>(dsh, 0);
+        assume_distinct(&m);
+        m
+    });
+    let mut rp = Replay { rec: &rec, i: 0 };
+    assert!(Z::deserialize_in_place(&mut rp, &mut dst).is_ok(), "[C16] deserialize_in_place failed");
+    let sd = scan(dst.verif_map(), &q);
+    assert!(sd.val.is_none() && dst.len() == 0 && sd.nfull_main + sd.nfull_old == 0, "[C16] deserialize_in_place of an empty record left previous elements in the destination");
+    post_inv(dst.verif_map(), &sd);
+    kani::cover!(true, "reach: end of harness");
+    core::mem::forget(dst);
+}
+harness!(sd_de_set_in_place_empty__s8_4a, sd_de_set_in_place_empty, S8_4A);
+harness!(sd_de_set_in_place_empty__u8_3t, sd_de_set_in_place_empty, U8_3T);
+
 fn sd_de_set_in_place(dsh: Shape) {
     let rec = any_record(2, false);
     let q: u8 = kani::any();
